@@ -99,7 +99,7 @@ func listSpaces(r *Run) []space {
 func numSpaces(r *Run) []space {
 	L := r.pick(8, 10)
 	return []space{{name: "num/bytes", gen: byteTrie{[]byte("1a \t\r\n"), L}, cfgs: []Cfg{{HdrCap: -1, ValCap: -1}, {Offs: 5, Junk: "colon", HdrCap: -1, ValCap: -1}}, beyondErr: 2, beyondOk: 2, split: 2},
-		{name: "num/frags", gen: seqTrie{Menu: bs("4294967295", "4294967296", "16777216", "16777217", "0", "INVITE", " ", "\t", "\r\n ", "x"), K: r.pick(4, 5), Term: hdrEnds},
+		{name: "num/frags", gen: seqTrie{Menu: bs("4294967295", "4294967296", "16777216", "16777217", "0", "00000000042", "000000009", "INVITE", " ", "\t", "\r\n ", "x"), K: r.pick(4, 5), Term: hdrEnds},
 			cfgs: []Cfg{{HdrCap: -1, ValCap: -1}}, beyondErr: 2, beyondOk: 1, split: 2}}
 }
 
@@ -204,6 +204,11 @@ var hdrLineMenuFull = []string{
 	"Expires:\r\n 0000000061\r\n",
 	"Content-Length: 16777216\r\n",
 	"l: 000000007\r\n",
+	"Content-Length: 0000000002\r\n",
+	"To: <sip:c@d>;\r\n",
+	"From: sip:a@b;\r\n",
+	"Contact: <sip:a@h>; , sip:b@h;\r\n",
+	"P-Asserted-Identity: <sip:p@q>;;\r\n",
 	"Via: SIP/2.0/UDP 1.2.3.4;branch=z9hG4bK77\r\n",
 	"v: SIP/2.0/TCP h;branch=1\r\n",
 	"Max-Forwards: 70\r\n",
@@ -242,6 +247,8 @@ var hdrLineMenuQuick = []string{
 	"P-Asserted-Identity: <sip:p@q>, <tel:+1>, n <sip:r@s>\r\n",
 	"Expires: 60\r\n",
 	"Expires: 4294967295\r\n",
+	"Content-Length: 0000000002\r\n",
+	"To: <sip:c@d>;\r\n",
 	"v: SIP/2.0/TCP h;branch=1\r\n",
 	"X-Gen: a\r\n b\r\n",
 	"X-W  : v  \r\n",
